@@ -440,7 +440,7 @@ Tally(T: PrimitiveType): with {
 #include "aldorio"
 import from MachineInteger;
 f(n: MachineInteger): MachineInteger == if n < 2 then 1 else n * f(n - 1);
-stdout << "fact " << f 10 << newline;
+stdout << "MARK fact " << f 10 << newline;
 ''',
 "client.as": '''#include "aldor"
 #include "aldorio"
@@ -448,7 +448,7 @@ stdout << "fact " << f 10 << newline;
 import from L;
 import from Counter, MachineInteger;
 c := bump bump new 40;
-stdout << "value " << value c << " triple " << triple 14 << newline;
+stdout << "MARK-LIB value " << value c << " triple " << triple 14 << newline;
 ''',
 "client2.as": '''#include "aldor"
 #include "aldorio"
@@ -459,9 +459,22 @@ import from Tally MachineInteger;
 c := bump bump new 40;
 s := rect(6, 7);
 t := add!(add!(add!(empty(), 3), 4), 3);
-stdout << "value " << value c << " area " << area s << " " << name s << " count " << count(t, 3) << newline;
+stdout << "MARK-LIB value " << value c << " area " << area s << " " << name s << " count " << count(t, 3) << newline;
 ''',
 }
+
+# the forms of the interactive session (-Gloop reads them from stdin): a line that does not use the
+# library, the import, a line printing values computed by the library, a line after it
+SRC["loop.in"] = '''#include "aldor"
+#include "aldorio"
+import from MachineInteger;
+stdout << "MARK-A " << 7 << newline;
+#library L "mylib.ao"
+import from L;
+import from Counter;
+stdout << "MARK-LIB " << value bump bump new 40 << " " << triple 14 << newline;
+stdout << "MARK-Z " << 9 << newline;
+'''
 
 def aldor_cmd(build):
     R = common.ALDOR_TOP
@@ -477,10 +490,12 @@ def run_compiler(cmd, base, files, flags, arg, tmo=10):
             with open(os.path.join(d, n), "wb") as f:
                 f.write(cnt)
         try:
-            p = subprocess.Popen(cmd + flags + [arg], cwd=d, stdout=subprocess.PIPE, stderr=subprocess.PIPE,
-                                 start_new_session=True)
+            # arg None: an interactive session, the forms (file loop.in) come on stdin
+            p = subprocess.Popen(cmd + flags + ([arg] if arg is not None else []), cwd=d,
+                                 stdin=subprocess.PIPE if arg is None else subprocess.DEVNULL,
+                                 stdout=subprocess.PIPE, stderr=subprocess.PIPE, start_new_session=True)
             try:
-                out, err = p.communicate(timeout=tmo)
+                out, err = p.communicate(files["loop.in"] if arg is None else None, timeout=tmo)
                 rc = p.returncode
             except subprocess.TimeoutExpired:
                 try: os.killpg(p.pid, 9)
@@ -498,20 +513,30 @@ def run_compiler(cmd, base, files, flags, arg, tmo=10):
     finally:
         shutil.rmtree(d, ignore_errors=True)
 
-def classify(ref, res):
+def markers(out):
+    return [l for l in out.split(b"\n") if l.startswith(b"MARK")]
+
+def classify(ref, res, loop=False):
+    """same: exit 0 and the outputs of the intact run (batch: the whole stdout and the files written; session:
+    the marker lines, the banner carries timings).  refused: a diagnostic, non-zero exit, and no marker line
+    that the intact run does not print (nothing computed from the damaged file is shown)."""
     rc, out, err, outs = res
     txt = (out + err).decode("latin1")
     if rc == "TIMEOUT": return "hang"
     if rc == "EXC": return "exec-error"
     if "Compiler bug" in txt or "Bug:" in txt: return "bug"
     if rc < 0 or rc >= 128 or "Program fault" in txt: return "segv"
+    M, M0 = markers(out), markers(ref[1])
     if rc == 0:
-        if out == ref[1] and outs == ref[3]: return "same"
+        if outs == ref[3] and (M == M0 if loop else out == ref[1]): return "same"
+        if loop and "Error" in txt and not any(m.startswith(b"MARK-LIB") for m in M) and all(m in M0 for m in M):
+            return "refused-exit0"       # the session went on after refusing the library and ended with status 0
         return "wrong-output"
+    if not all(m in M0 for m in M): return "wrong-output"
     if not txt.strip(): return "silent-failure"
     return "refused"
 
-BAD = ("segv", "bug", "hang", "wrong-output", "silent-failure", "exec-error")
+BAD = ("segv", "bug", "hang", "wrong-output", "refused-exit0", "silent-failure", "exec-error")
 
 def coarse(region):
     """damage class used in finding signatures.  About 1 % of the damaged inputs end differently from run to
@@ -568,6 +593,7 @@ def run_e2e(ctx, build):
     scenarios = [
         # name, damaged file, other files, flags, argument, kind of file
         ("ao-import", "mylib.ao", {"client.as": cl("client.as")}, ["-Ginterp"], "client.as", "ao"),
+        ("loop-import", "mylib.ao", {"loop.in": cl("loop.in")}, ["-Gloop"], None, "ao"),
         ("ao-run", "hello.ao", {}, ["-Ginterp"], "hello.ao", "ao"),
         ("ao-to-c", "hello.ao", {}, ["-Fc", "-Ffm"], "hello.ao", "ao"),
         ("al-import", "libmine.al", {"client2.as": cl("client2.as")}, ["-Ginterp"], "client2.as", "al"),
@@ -605,7 +631,7 @@ def run_e2e(ctx, build):
             bounds = []
         quota_t = n if thorough else {"ao": 330, "al": 420, "fm": 120}[kind]
         quota_s = n if thorough else {"ao": 260, "al": 380, "fm": 100}[kind]
-        if sname == "ao-to-c" and not thorough:
+        if sname in ("ao-to-c", "loop-import") and not thorough:
             quota_t, quota_s = 200, 200
         # truncations: every length in the header and section table, a sample elsewhere
         tl = sorted(set(list(range(0, min(dense, n))) + sample_offsets(rng, quota_t, dense, n, bounds)))
@@ -629,7 +655,7 @@ def run_e2e(ctx, build):
         if refs[si][0] != 0: return None
         files = dict(others); files[fname] = blob
         res = run_compiler(cmd, base, files, flags, arg, 10)
-        return classify(refs[si], res), res
+        return classify(refs[si], res, loop=arg is None), res
     with ThreadPoolExecutor(16) as ex:
         results = list(ex.map(work, jobs))
     hist = {}
@@ -652,12 +678,12 @@ def run_e2e(ctx, build):
         sc = [s for s in scenarios if s[0] == sname][0]
         sig = "libhdr-e2e|%s|%s" % (dk, outcome)
         what = ("%d damaged-file run(s) end in `%s` for damage class %s; e.g. scenario %s (aldor %s %s), %s %s: rc=%s, output %r"
-                % (len(exs), outcome, dk, sname, " ".join(sc[3]), sc[4], sc[1], desc, res[0],
+                % (len(exs), outcome, dk, sname, " ".join(sc[3]), sc[4] or "< loop.in", sc[1], desc, res[0],
                    (res[1] + res[2]).decode("latin1")[-200:]))
         ctx.finding(sig, what, {"kind": "e2e-damage", "scenario": sname, "flags": sc[3], "argument": sc[4],
                                 "damaged_file": sc[1], "damage": list(dmg), "outcome": outcome, "rc": res[0],
                                 "output_tail": (res[1] + res[2]).decode("latin1")[-600:],
-                                "sources": {k: SRC[k] for k in SRC},
+                                "sources": {k: SRC[k] for k in SRC}, "stdin": "loop.in" if sc[4] is None else None,
                                 "how": "compile the library units with -Fao (ar cr libmine.al mylib.ao shapes.ao tally.ao), "
                                        "apply the damage to the named file, run the command in a fresh directory under timeout 10",
                                 "more": [(s, d) for (s, d, _, _) in exs[1:6]]})
